@@ -25,7 +25,10 @@ ForeignCases == LET bs == {ForeignBytes(t, m, bo, good) : t \in {"MultiPoint", "
                     unk == {<<bo>> \o U32(ty, bo) \o tail : bo \in {0, 1}, ty \in {0, 8, 255}, tail \in {<<>>, <<0, 0, 0, 0>>, PtB(PtK(1), 0)}}
                           \cup {<<bo>> \o U32(TypeCode(t), bo) \o U32(1, bo) \o <<bo>> \o U32(0, bo) \o PtB(PtK(1), bo) :
                                    bo \in {0, 1}, t \in {"MultiPoint", "MultiLineString", "MultiPolygon", "GeometryCollection"}}
-                IN {[kind |-> "dec", bytes |-> b, valid |-> FALSE] : b \in bad \cup unk}
+                    (* a long point array (more than one internal read chunk, not a multiple of it) followed by bytes that do not
+                       belong to the geometry: decoding succeeds, and so must decoding the re-encoded result *)
+                    trail == {EncBytes(G("LineString", PathL(n)), bo) \o [i \in 1..(16 * 1030) |-> 0] : n \in {1100}, bo \in {0, 1}}
+                IN {[kind |-> "dec", bytes |-> b, valid |-> FALSE] : b \in bad \cup unk \cup trail}
                    \cup {[kind |-> "dec", bytes |-> <<0>> \o U32(7, 0) \o U32(2, 0) \o b \o EncBytes(G("Point", PtK(4)), 0), valid |-> FALSE] : b \in bad}
 GenInit == IF Mode = "foreign" THEN c \in ForeignCases /\ PrintT(ToJson(c)) /\ Init
            ELSE IF Mode = "codec"
